@@ -2,7 +2,7 @@
 # Step "race-run" of property C19 (bin/check steps protocol). Environment: VERIF_REPO VERIF_BUILD VERIF_TIER VERIF_SEED.
 # Builds harness/cmd/vrace with the race detector against $VERIF_REPO (private -modfile, nothing shared is written) and runs seeded
 # concurrent mixes of every exported function on 16 goroutines. exit 0 ok; exit 1 + "REPLAY <path>" data race / result mismatch / modified
-# input; exit 2 the run itself failed. VRACE_SECONDS overrides the duration (quick 25 s, thorough 900 s).
+# input; exit 2 the run itself failed. VRACE_SECONDS overrides the duration (quick 18 s, thorough 900 s).
 set -u
 V="$(cd "$(dirname "$0")/../../.." && pwd)"
 REPO="$(realpath "${VERIF_REPO:-/repo}")"
@@ -13,7 +13,7 @@ mkdir -p "$B"
 export GOFLAGS=-mod=mod GOPROXY=off GOSUMDB=off GOTOOLCHAIN=local CGO_ENABLED=1
 SECS="${VRACE_SECONDS:-}"
 if [ -z "$SECS" ]; then
-  if [ "$TIER" = thorough ]; then SECS=900; else SECS=25; fi
+  if [ "$TIER" = thorough ]; then SECS=900; else SECS=18; fi
 fi
 rm -f "$B/race-outcome.txt" "$B/C19-race.json" "$B/C19-mismatch.json"
 sed "s#=> /repo#=> $REPO#" "$V/harness/go.mod" > "$B/race.mod"
